@@ -1425,6 +1425,54 @@ func retCases(fn *ssa.Function) []retCase {
 	return out
 }
 
+// caseConds: the branch conditions under which a way out is taken — those that dominate the block it leaves from,
+// plus the deciding branch when the way out is itself one arm of an If.
+func caseConds(rc retCase) []domCond {
+	out := blockConds(rc.at.Block(), nil, 0)
+	if iff, ok := rc.at.(*ssa.If); ok && rc.pred >= 0 {
+		b := iff.Block()
+		if b.Succs[0] != b.Succs[1] {
+			out = append(out, condImplies(iff.Cond, b.Succs[0] == rc.ret.Block(), 0)...)
+		}
+	}
+	return out
+}
+
+// caseGuardedBy: the way out is only taken when cond has the given truth.
+func caseGuardedBy(rc retCase, cond ssa.Value, truth bool) bool {
+	if guardedBy(rc.at, cond, truth) {
+		return true
+	}
+	for _, dc := range caseConds(rc) {
+		if dc.Cond == cond && dc.Truth == truth {
+			return true
+		}
+	}
+	return false
+}
+
+// retEdgeCases: one return seen once per incoming edge of its block (whatever its results are): rules about the
+// memory state at a shared exit judge each way into it.
+func retEdgeCases(ret *ssa.Return) []retCase {
+	b := ret.Block()
+	if len(b.Preds) < 2 {
+		return []retCase{{ret: ret, at: ret, results: ret.Results, pred: -1}}
+	}
+	var out []retCase
+	for i, p := range b.Preds {
+		rc := retCase{ret: ret, at: p.Instrs[len(p.Instrs)-1], pred: i}
+		for _, v := range ret.Results {
+			if ph, ok := v.(*ssa.Phi); ok && ph.Block() == b {
+				rc.results = append(rc.results, ph.Edges[i])
+			} else {
+				rc.results = append(rc.results, v)
+			}
+		}
+		out = append(out, rc)
+	}
+	return out
+}
+
 // retCasesErr is retCases, but a return is split only when its *error* result is a join formed in the return block
 // itself (the single-exit style); other joined results stay as they are and are reasoned about where the return is.
 func retCasesErr(fn *ssa.Function) []retCase {
@@ -1813,6 +1861,26 @@ func c02Decoders(P *Program, r *Result) {
 			mkOK = skip.Common().Args[0] == ssa.Value(fn.Params[0])
 		} else if mk := asCall(skip.Common().Args[0]); mk != nil && mk.Common().StaticCallee() != nil && baseName(mk.Common().StaticCallee()) == "NewSkipDecoderTpl" && mk.Common().Args[0] == ssa.Value(fn.Params[0]) {
 			mkOK = true
+		} else if ld, isLd := skip.Common().Args[0].(*ssa.UnOp); isLd && ld.Op == token.MUL {
+			// the template value written as a literal: SkipDecoderTpl[*X]{r: p} — its one field holds the receiver
+			if al, isAl := ld.X.(*ssa.Alloc); isAl && al.Referrers() != nil {
+				nst, good := 0, false
+				for _, ref := range *al.Referrers() {
+					fad, isFA := ref.(*ssa.FieldAddr)
+					if !isFA || fad.Referrers() == nil {
+						continue
+					}
+					for _, r2 := range *fad.Referrers() {
+						if st, isSt := r2.(*ssa.Store); isSt && st.Addr == ssa.Value(fad) {
+							nst++
+							if st.Val == ssa.Value(fn.Params[0]) && instrDominates(st, ld) {
+								good = true
+							}
+						}
+					}
+				}
+				mkOK = good && nst == 1
+			}
 		}
 		r.add("DECODER-BYTES", shortName(fn), "tpl", "the template walks this decoder, with the type asked for", P.pos(instrPos(skip)), mkOK && skip.Common().Args[1] == ssa.Value(fn.Params[1]), "")
 		atSkip := cellIntAt(fan, skip, d.counter)
